@@ -161,6 +161,41 @@ def c19(tier, seed):
     ]
 
 
+def varexp_consts(tier, big=False):
+    q = tier == "quick"
+    sh = "<-ShSmall" if q else "<-ShQuick"
+    return dict(NameTab="<-TabNK", ShapesA=sh, ShapesB=sh, ShapesC=sh, ShapesK="<-ShK",
+                EnvSets="<-EnvsQuick" if q else "<-EnvsAll", ResSets="<-ResQuick" if q else "<-ResAll")
+
+
+def varexp_gen(tier, label="Gen_VarExp/worlds", extra=()):
+    return GEN("Gen_VarExp", varexp_consts(tier), "varexp", replay_args=list(extra), label=label, min_cases=20000,
+               timeout=3600)
+
+
+VAR_MC = dict(NameTab="<-TabNK", ShapesA="<-ShSmall", ShapesB="<-ShSmall", ShapesC="<-ShSmall", ShapesK="<-ShK",
+              EnvSets="<-EnvsAll", ResSets="<-ResAll", Groups="={}")
+
+
+def c02(tier, seed):
+    return [
+        MC("Gen_VarExp", VAR_MC, invariants=["NoSilentEmpty", "LookupOrder"], label="MC_VarExp/lookup-order"),
+        varexp_gen(tier),
+        varexp_gen("quick", label="Gen_VarExp/late-binding", extra=["--split-merge"]),
+    ]
+
+
+def c08(tier, seed):
+    return [
+        MC("UcfgVarExpSteps", dict(Dev="<-NoDev"), invariants=["StackBounded", "ResultSet"], properties=["Terminates"],
+           spec="Spec", label="MC_Steps/terminates"),
+        MC("UcfgVarExpSteps", dict(Dev="<-FlatDev"), invariants=["StackBounded"], spec="Spec", expect_violation=True,
+           label="MC_Steps/refute-FlattenFreshActiveSet"),
+        MC("Gen_VarExp", VAR_MC, invariants=["NoFalseCycle", "FlattenReturns"], label="MC_VarExp/no-false-cycle"),
+        varexp_gen(tier),
+    ]
+
+
 ASSUME_COMMON = [
     "the public-API observation (Unpack into map and slice, canonicalised) reads the abstract state faithfully",
     "TLC, the JVM, the Go toolchain and runtime",
@@ -179,7 +214,18 @@ NORM_RULE = ("Gen_Normalize: every ordered input of <= 3 entries over 5 overlapp
              "fixed-size arrays; Trace_Normalize: random trees (depth<=4), random flattening/representation. "
              "non-trivial = at least two entries; distinct by input")
 
+VAR_RULE = ("Gen_VarExp: every assignment of expression shapes (literal, ${x}, repeated ${x}${x}, prefix+ref, ${x:d}, ${x:${y}}, "
+            "${x:+y}, ${x:?m}, ${${x}}, ${x:+y}${x}, typed number) to the settings a, b, c and of 5 shapes to the nested n.k "
+            "(incl. a cycle through the sub-dictionary) x Env set-ups (none, one, two in both orders, a name known to both) x "
+            "resolver set-ups (none, one knowing nothing, one, two in both orders); per world String(), typed Unpack of one field, "
+            "Has, CountField, Child for six names, Unpack of the whole config, FlattenedKeys and CompareConfigs - every world in a "
+            "crash-isolated child process. non-trivial: every world; distinct by world")
+
 CHECKS = {
+    "C02": dict(stages=c02, family="varexp", rule=VAR_RULE + "; late binding: the same worlds built by two Merge calls over a random split of the settings",
+                assumptions=ASSUME_COMMON + ["literal alphabets are chosen so that the value parser reads a splice result back as the same text (C17 covers the parser)"]),
+    "C08": dict(stages=c08, family="varexp", rule=VAR_RULE + "; UcfgVarExpSteps: liveness (termination) over all 8000 graphs of three settings x 3 queries x 2 entry modes",
+                assumptions=ASSUME_COMMON + ["a dead or timed-out child process is the observation 'did not return' (stack limit 4 MB, 20 s deadline)"]),
     "C19": dict(stages=c19, family="flags",
                 rule="Gen_Flags: every sequence of <= 3 arguments over 14 argument shapes (dotted/indexed keys; scalar, comma list, "
                      "[list], {object}, object with dotted key, bare key, empty value, malformed values) x 7 option sets (no separator, "
